@@ -187,6 +187,59 @@ func vfsCreateExcl(p string) int {
 	return 0
 }
 
+// vfsMkdir: os.Mkdir. 0 made, 1 exists already, 2 refused (no parent, parent is a file, ...)
+func vfsMkdir(p string) int {
+	e := verifPathElems(p)
+	if !vfsInside(e) {
+		vfsOutside++
+		vfsMut++
+	}
+	if len(e) == 0 || vfsTooLong(e) {
+		return 2
+	}
+	if len(e) > 1 {
+		pi := vfsFind(e[:len(e)-1])
+		if pi < 0 || vfs[pi].kind != 1 {
+			return 2
+		}
+	}
+	if vfsFind(e) >= 0 {
+		return 1
+	}
+	vfsMut++
+	vfs = append(vfs, vEntry{elems: append([]string{}, e...), kind: 1})
+	return 0
+}
+
+// vfsRemove: os.Remove (all == false: only a file or an empty directory) / os.RemoveAll. true: done (or nothing there
+// for RemoveAll); every entry that goes away is a mutation.
+func vfsRemove(p string, all bool) bool {
+	e := verifPathElems(p)
+	if !vfsInside(e) {
+		vfsOutside++
+		vfsMut++
+	}
+	i := vfsFind(e)
+	if i < 0 {
+		return all
+	}
+	var keep []vEntry
+	removed := 0
+	for _, x := range vfs {
+		if len(x.elems) >= len(e) && hasPrefixElems(x.elems, e) {
+			removed++
+			continue
+		}
+		keep = append(keep, x)
+	}
+	if !all && removed > 1 {
+		return false // directory not empty
+	}
+	vfs = keep
+	vfsMut += removed
+	return true
+}
+
 func vfsCreate(p string) bool {
 	e := verifPathElems(p)
 	vfsMut++
